@@ -12,6 +12,7 @@ var Registry = map[string]func(p *load.Prog, r *oblig.Run){
 	"C02": C02,
 	"C03": C03,
 	"C04": C04,
+	"C05": C05,
 	"C06": C06,
 	"C07": C07,
 	"C08": C08,
